@@ -150,11 +150,20 @@ impl Property for C10 {
         st.eval(1);
         // every message consumes at least one byte (ALIGN for zero-sized payloads), so this many events suffice
         let max_events = stream.len() + 8;
+        // two thirds of the cases: an explicitly built buffer of the same capacity as ::io()'s, aligned two or
+        // four times more strictly than the message type needs
+        let shift = (stream.len() % 3) as u32;
+        if shift > 0 {
+            crate::io_glue::IO_CAPACITY.with(|c| c.set(Some(2 * max_msg_len.max(model::min_size(ty)))));
+            crate::io_glue::IO_ALIGN_SHIFT.with(|c| c.set(shift));
+        }
         let rep = if asynchronous {
             lib(|| sh.io_async_recv(&mut source, max_msg_len, max_events, 0, 8 * budget + 64))
         } else {
             lib(|| sh.io_recv_blocking(&mut source, max_msg_len, max_events, 0))
         };
+        crate::io_glue::IO_CAPACITY.with(|c| c.set(None));
+        crate::io_glue::IO_ALIGN_SHIFT.with(|c| c.set(0));
         let rep = match rep {
             Ok(r) => r,
             Err(p) => {
